@@ -295,6 +295,7 @@ func (e *endPoint) MakeHandler(f Filter, queue chan<- *Message, cl Closer) int {
 // EndPoint. A goroutine associated with a queue of 10 messages is
 // created.
 func (e *endPoint) AddHandler(f Filter, c Consumer, cl Closer) int {
+	vhook.Gate("endpoint.AddHandler", e)
 	ch := make(chan *Message, 10)
 	go func() {
 		for msg := range ch {
